@@ -365,6 +365,9 @@ func bsWorldGen(r *Run, rng *Rng, w *bsWorld, steps int, allowRm bool) {
 					if len(g.bounds) > 0 && rng.Chance(35) {
 						k = g.bounds[rng.Intn(len(g.bounds))] // the row insert of one of the events (after its tree writes)
 					}
+					if rng.Chance(15) {
+						k = 9000 // the COMMIT itself fails
+					}
 					obs := w.exec(r, fmt.Sprintf("blk %d %d %s", bn, k, evs))
 					r.Count("branch:fault")
 					if obs == "ok" {
